@@ -14,6 +14,7 @@ import (
 
 	"github.com/rcrowley/go-metrics"
 	"github.com/slackhq/nebula/cert"
+	"github.com/slackhq/nebula/config"
 	"github.com/slackhq/nebula/firewall"
 	"github.com/slackhq/nebula/iputil"
 )
@@ -24,6 +25,7 @@ var (
 	_ metrics.Counter
 	_ netip.Addr
 	_ firewall.Packet
+	_ *config.C
 	_ = iputil.SpecIsExt
 )
 
@@ -554,6 +556,51 @@ func specIncoming(c *conn) bool {
 	}
 	return c.incoming
 }
+
+// ---- C19: firewall reload ----
+//
+// Assumed frames of the collaborators of reloadFirewall: they read
+// configuration / certificates or build a brand-new firewall; none of them
+// touches the installed firewall or its conntrack table.
+//@ func (*PKI).getCertState
+//@   trusted atomic pointer load of the current certificate state
+//@   ensures result != nil
+//@   assigns nothing
+//@ func (*CertState).getCertificate
+//@   trusted returns one of the state's certificates
+//@   assigns nothing
+//@ func github.com/slackhq/nebula/config.(*C).HasChanged
+//@   trusted compares old and new settings maps; reads only
+//@   ensures result == c.HasChanged(k)
+//@   assigns nothing
+//@ func NewFirewallFromConfig
+//@   trusted builds a new Firewall (and a new conntrack table) from configuration; does not touch existing firewalls
+//@   ensures implies(result1 == nil, result0 != nil && fresh(result0) && result0.Conntrack != nil && fresh(result0.Conntrack))
+//@   assigns nothing
+//@ func github.com/slackhq/nebula/cert.(Certificate).UnsafeNetworks
+//@   trusted accessor of an immutable certificate
+//@   assigns nothing
+//@ func (*Firewall).Destroy
+//@   trusted unregisters metrics only
+//@   assigns nothing
+//@ func (*Firewall).GetRuleHashes
+//@   trusted formats rule hashes; reads only
+//@   assigns nothing
+
+// reloadFirewall: nothing changes unless the firewall configuration or the
+// certificate's unsafe networks changed; a replacement firewall carries the
+// next rules version and inherits the conntrack table (so established flows
+// are revalidated lazily by inConns) unless the 16-bit version wrapped to 0.
+//@ func (*Interface).reloadFirewall
+//@   props C19
+//@   requires f != nil && f.pki != nil && f.firewall != nil && f.firewall.Conntrack != nil && f.l != nil && c != nil
+//@   old fw0 = f.firewall
+//@   old ver0 = f.firewall.rulesVersion
+//@   old ct0 = f.firewall.Conntrack
+//@   ensures[keep]    implies(f.firewall == fw0, fw0.rulesVersion == ver0 && fw0.Conntrack == ct0)
+//@   ensures[bump]    implies(f.firewall != fw0, f.firewall != nil && f.firewall.rulesVersion == ver0+1)
+//@   ensures[inherit] implies(f.firewall != fw0 && ver0+1 != 0, f.firewall.Conntrack == ct0)
+//@   ensures[wrap]    implies(f.firewall != fw0 && ver0+1 == 0, f.firewall.Conntrack != ct0 && f.firewall.Conntrack != nil)
 
 // =====================================================================
 // C33 — timer wheel slot arithmetic
